@@ -247,6 +247,15 @@ func (c *Ctx) specCall(name string, e *ast.CallExpr) (Value, bool) {
 			panic(engineErr("%s(s): byte slice expected", name))
 		}
 		return Scalar(x.byteOrder32(name, v.Arr), types.Typ[types.Uint32]), true
+	case "bytesof":
+		// bytesof(v): the bytes of an opaque array value (what v[:] gives in the code)
+		v := c.eval(e.Args[0])
+		if v.Kind == KScalar {
+			if ob, ok := x.opaqueBytes(v.S, v.T); ok {
+				return ob, true
+			}
+		}
+		panic(engineErr("bytesof(v): v is not a value of an opaque byte-array type"))
 	case "sendattempts":
 		return Scalar(x.ghostInt(c.st, sendsKey), types.Typ[types.Int]), true
 	case "before":
